@@ -116,7 +116,7 @@ Qed.
 
 (* ---- extended to `break`, the endless `repeat`, calls of routines and `return` (Lang/Simulation3.v, SimulationTop.v) ----
    Every program made of routine definitions (at the top level, each name once, no routine reaching itself) and of the covered
-   statements, if / else, blocks, `repeat while`, counted `repeat n`, `repeat with v from a to b`, plain `repeat`, `break`, calls `f a b ...` whose arguments
+   statements, if / else, blocks, `repeat while`, counted `repeat n`, `repeat with v from a to b`, `repeat n with v from a to b`, `repeat n with v cycle`, plain `repeat`, `break`, calls `f a b ...` whose arguments
    are ordinary values, and `return`, nested to any depth: the compiled code, loaded (routine bodies moved out of line) and run
    on the machine model from the initial state, finishes with exactly the events of the reference semantics. *)
 From Bardolph Require Import Lang.Builtins Lang.CallFrames Lang.Simulation3 Lang.SimulationTop.
@@ -160,6 +160,8 @@ Example C01_program_nonvacuous :
             SCall "blink" [RLit (LInt 2); RLit (LInt 5)] false;
             SRepeat (LRange "i" (RVar "total") (RLit (LInt 1)))
                     (SBlock [SIf (RExpr (EBin BLt (EVar "i") (ELit (LInt 2)))) SBreak None; SCall "blink" [RLit (LInt 1); RVar "i"] false; SPrintln (Some (RVar "i"))]);
+            SRepeat (LCountWith (RLit (LInt 3)) (WRange "h" (RLit (LInt 10)) (RVar "total"))) (SBlock [SReg R_HUE (RVar "h"); SSet OpAll]);
+            SRepeat (LCountWith (RVar "total") (WCycle "c" None)) (SBlock [SReg R_HUE (RVar "c"); SSet OpAll]);
             SPrintln (Some (RVar "total"))] in
   let w := [mkLight "a" "g" "l" KPlain [0; 0; 0; 0]] in
   Forall (top_stmt_ok (fst (collect p [] [])) (snd (collect p [] []))) p /\ NoDup (map fst (defs_of p)) /\
